@@ -34,11 +34,11 @@ Next ==
   /\ LET raw == Rec[l] IN
      IF raw.op.op = "reset" THEN g' = GInit /\ dead' = FALSE /\ UNCHANGED cnt
      ELSE IF dead THEN UNCHANGED <<g, dead, cnt>>
-     ELSE LET ev == Norm(raw)  f == Failing(g, ev) IN
+     ELSE LET ev == Norm(raw)  f == Failing(g, ev)  en == Engaged(g, ev) IN
           /\ \A m \in f : Report(ev, m)
           /\ dead' = (f # {})
           /\ g' = GNext(g, ev)
-          /\ cnt' = [m \in Monitors |-> cnt[m] + IF Ante(m, g, ev) THEN 1 ELSE 0]
+          /\ cnt' = [m \in Monitors |-> cnt[m] + IF m \in en THEN 1 ELSE 0]
   /\ (l = Len(Rec) => PrintT(<<"DONE", l, ToJson(cnt')>>))
 
 Spec == Init /\ [][Next]_vars
